@@ -109,6 +109,7 @@ type vBehaviour struct {
 	post    bool // writes after the Next calls
 	retBody bool // kind 1: returns a non-empty string (rendered => written)
 	cancel  bool // cancels the request context before returning
+	swap    bool // first replaces the request's context by a fresh one (a timeout/scope middleware): later cancellations act on that one
 }
 
 type vChainRun struct {
@@ -149,6 +150,7 @@ func (r *vChainRun) beh(i int) vBehaviour {
 		}
 		if r.withCancel {
 			b.cancel = vx.Bool()
+			b.swap = vx.Bool()
 		}
 	}
 	return r.b[i]
@@ -199,6 +201,11 @@ func (r *vChainRun) refHandler(i int) {
 func (r *vChainRun) body(i int, c Context) string {
 	b := r.beh(i)
 	r.ev(i + 1)
+	if b.swap && !r.cancelled {
+		nc := &vReqCtx{done: make(chan struct{})}
+		c.Request().Request = c.Request().Request.WithContext(nc)
+		r.ctx = nc
+	}
 	if b.pre {
 		_, _ = c.ResponseWriter().Write([]byte("p"))
 	}
